@@ -212,6 +212,9 @@ def document(variables, start, stop, dt_spec, name="generated"):
         if gf:
             out.append("\t\t\t\t<gf>\n")
             if gf.get("xpts"):
+                if gf.get("xscale_too"):
+                    # editors write the scale of the x axis next to explicit x points; the points define the function
+                    out.append('\t\t\t\t\t<xscale min="%s" max="%s"/>\n' % (num_txt(gf["xpts"][0]), num_txt(gf["xpts"][-1])))
                 out.append("\t\t\t\t\t<xpts>%s</xpts>\n" % ",".join(num_txt(x) for x in gf["xpts"]))
             else:
                 out.append('\t\t\t\t\t<xscale min="%s" max="%s"/>\n' % (num_txt(gf["xmin"]), num_txt(gf["xmax"])))
